@@ -3,7 +3,7 @@
    theorems through the wiring of the real server, which the end-to-end parts of the C04 / C19 / C06 checks exercise
    (humphrey_server::server::main started from configuration texts, model = serve_text on the same text). *)
 From Hv Require Import Prelude Bytes TablesHttp TablesConfig Http Krauss Routing RoutingProofs Blacklist StaticFs StaticFsProofs
-  Config Server ServerProofs.
+  Config BytesProofs Server ServerProofs ServerNoPanicProofs.
 Open Scope N_scope.
 
 (* C06: a 200 answer of the server comes from the route the App matched (ch), and when that route is a `directory` route
@@ -20,4 +20,29 @@ Theorem C06_server_directory_confined :
        exists loc, under root loc /\ node_at fs loc = Some (File body)).
 Proof. exact server_directory_confined. Qed.
 
+(* a `directory` route the router chose always answers: directory_handler's prefix strip (String::remove(0) per pattern
+   character) cannot panic on a path its pattern matched, so neither the handler nor the missing-path case occurs.
+   Paths and patterns are Rust Strings, hence valid UTF-8. *)
+Theorem C06_server_directory_always_answers :
+  forall ipp fs (c : config) p req,
+    utf8 (r_uri req) ->
+    (forall rt, In rt (hc_routes (cf_default_host c)) -> utf8 (rt_matches rt)) ->
+    (forall hc rt, In hc (cf_hosts c) -> In rt (hc_routes hc) -> utf8 (rt_matches rt)) ->
+    forall ch rt,
+      get_handler (map subapp_of (cf_hosts c)) (subapp_of (cf_default_host c))
+                  (option_map scalars (hget (HKnown H_Host) (r_headers req))) (scalars (r_uri req)) = Some ch ->
+      get_route c (fst (handler_ids ch)) (snd (handler_ids ch)) = Some rt ->
+      rt_type rt = RT_Directory -> rt_path rt <> None ->
+      is_upgrade req = false ->
+      server_response ipp fs c p req <> SStatic RPanic /\ server_response ipp fs c p req <> SPanic.
+Proof. exact server_directory_never_panics. Qed.
+
+Theorem C06_directory_handler_never_panics :
+  forall fs (directory matches uri : bytes),
+    utf8 matches -> utf8 uri -> wildcard_match (scalars matches) (scalars uri) = true ->
+    directory_handler fs directory matches uri <> RPanic.
+Proof. exact directory_handler_never_panics. Qed.
+
 Print Assumptions C06_server_directory_confined.
+Print Assumptions C06_server_directory_always_answers.
+Print Assumptions C06_directory_handler_never_panics.
